@@ -49,17 +49,17 @@ def node_record(path, node, registered_types=None):
     rec = {
         'path': str(path),
         'kind': kind,
-        'source_file': node._source_file,
+        'source_file': node.ayns.source_file,
         'safe': bool(node.ayns.safe),
-        '_safe': node._safe,
-        'implicit_safe': node._implicit_safe,
-        'default_safe': node._default_safe,
+        '_safe': getattr(node, '_safe', '<n/a>'),
+        'implicit_safe': getattr(node, '_implicit_safe', '<n/a>'),
+        'default_safe': getattr(node, '_default_safe', '<n/a>'),
         'priority': node.ayns.priority,
         'delete': bool(node.ayns.delete),
-        'explicit_delete': node._delete,
+        'explicit_delete': node.ayns.explicit_delete,
         'allow_new': bool(node.ayns.allow_new),
-        'idx': node._idx,
-        'metadata': sorted((str(k), norm_text(repr(v))) for k, v in node._metadata.items()),
+        'idx': node.ayns.idx,
+        'metadata': sorted((str(k), norm_text(repr(v))) for k, v in node.ayns.metadata.items()),
     }
     t = type(node)
     if isinstance(t, ConfigScalarMeta) and hasattr(t, '_dyn_base'):
